@@ -354,7 +354,7 @@ class QAdaptiveActivation(Layer, PrunableLayer):
     channel_index = -1 if K.image_data_format() == "channels_last" else 1
     if self.per_channel:
       input_shape_list = list(input_shape) if isinstance(
-          input_shape, tuple) else input_shape.as_list()
+          input_shape, (tuple, list)) else input_shape.as_list()
       num_channels = tf.constant(input_shape_list[channel_index],
                                  shape=(1), dtype=tf.int64)
     else:
